@@ -358,7 +358,8 @@ func isZero(v any) bool {
 	case nil:
 		return true
 	case string:
-		return x == ""
+		// zero values of struct-backed formats
+		return x == "" || strings.HasPrefix(x, "0001-01-01") || (len(x) >= 20 && strings.Trim(x, "0") == "") || x == "00000000-0000-0000-0000-000000000000"
 	case float64:
 		return x == 0
 	case bool:
@@ -366,7 +367,12 @@ func isZero(v any) bool {
 	case []any:
 		return len(x) == 0
 	case map[string]any:
-		return len(x) == 0
+		for _, e := range x {
+			if !isZero(e) {
+				return false
+			}
+		}
+		return true
 	}
 	return false
 }
